@@ -321,6 +321,7 @@ def mutate_once(rng, text: str, idents=None) -> str:
             ("ident_case", 3),
             ("dotted", 6),
             ("rename_all", 8),
+            ("rename_one", 14),
         ]
     )
     sig = [i for i, t in enumerate(toks) if not t.isspace()] or list(range(len(toks)))
@@ -420,6 +421,17 @@ def mutate_once(rng, text: str, idents=None) -> str:
             new = rng.choice(ODD_NAMES)
             if new not in ids:
                 return "".join(new if t == old else t for t in toks)
+    if kind == "rename_one":
+        # ONE occurrence of a name gets an odd spelling: usually an unresolved reference (or an
+        # option, a member, a definition nobody refers to any more) whose *content* is unusual --
+        # what diagnostics ("... not defined", suggestions, caret lines) are built from
+        ids = [i for i, t in enumerate(toks) if re.match(r"[A-Za-z_]\w*$", t) and t not in KEYWORDS and not re.match(r"(u?int\d+|bool|byte|true|false|yes|no)$", t)]
+        if ids:
+            i = rng.choice(ids)
+            # (degenerate spellings first: nothing left after stripping underscores, one character)
+            odd = rng.choice(["_", "__", "___", "_", "a", "A", "_1", "_x"]) if rng.chance(0.4) else rng.choice(ODD_NAMES + ["%", "{}", "{0}", "%s", "\\", "é", "名前"])
+            toks[i] = rng.choice([odd, odd, odd, toks[i] + "." + odd, odd + "." + toks[i], odd + "." + odd])
+            return "".join(toks)
     if kind == "dotted":
         # turn a simple reference into a dotted one (through whatever that name denotes)
         ids = [i for i, t in enumerate(toks) if re.match(r"[A-Za-z_]\w*$", t) and t not in KEYWORDS]
